@@ -282,6 +282,7 @@ func runInflux(in *input, cfg BackendCfg) bres {
 		r.monitors = append(r.monitors, "influxdb: send error: "+e.Error())
 	}
 	var batches [][]Item
+	var bodies []string
 	for _, c := range srv.take() {
 		if (c.encoding == "gzip") != cfg.Compress {
 			r.monitors = append(r.monitors, fmt.Sprintf("influxdb: Content-Encoding %q with compress-payload=%v", c.encoding, cfg.Compress))
@@ -292,6 +293,7 @@ func runInflux(in *input, cfg BackendCfg) bres {
 			continue
 		}
 		text := string(body)
+		bodies = append(bodies, hlib.Bytes(text))
 		if !strings.HasSuffix(text, "\n") {
 			r.monitors = append(r.monitors, "influxdb: body does not end with a newline")
 		}
@@ -321,7 +323,10 @@ func runInflux(in *input, cfg BackendCfg) bres {
 		r.nitems += len(batch)
 	}
 	r.nbatches = len(batches)
-	r.coq = hlib.App("BInflux", hlib.N(uint64(cfg.Batch)), hlib.Z(nowUnix), coqBatches(batches))
+	// the model side reads the raw bodies with the Gallina line-protocol reader (strict, except in
+	// the streams of the known findings F4 / F5 whose lines are not valid line protocol)
+	lossy := in.Stream == "f4" || in.Stream == "s5"
+	r.coq = hlib.App("BInflux", hlib.N(uint64(cfg.Batch)), hlib.Bool(lossy), hlib.Z(nowUnix), hlib.List(bodies))
 	r.obs = describe(batches)
 	return r
 }
@@ -635,7 +640,8 @@ func runGraphite(in *input, cfg BackendCfg) bres {
 	}
 	r.nbatches, r.nitems = 1, len(items)
 	mode := map[string]string{"legacy": "true false", "basic": "false false", "tags": "false true"}[cfg.Mode]
-	r.coq = hlib.App("BGraphite", hlib.App("MkG", mode, hlib.Bytes(strings.Trim(cfg.Suffix, "."))), hlib.Z(now), coqItems(items))
+	// the raw TCP stream goes to the Gallina plaintext reader (strict except for non-finite values)
+	r.coq = hlib.App("BGraphite", hlib.App("MkG", mode, hlib.Bytes(strings.Trim(cfg.Suffix, "."))), hlib.Bool(in.Stream == "nonfinite"), hlib.Z(now), hlib.Bytes(data))
 	r.obs = describe([][]Item{items})
 	return r
 }
